@@ -1509,7 +1509,7 @@ fn run_witnesses(or: &mut Oracle, wits: &[Wit], stream: &str, only: Option<u64>)
         if only.map(|c| c != idx as u64).unwrap_or(false) { continue; }
         or.count("witness");
         let forms: Vec<(Vec<u8>, bool)> = vec![];
-        let mut got_text = String::new();
+        let got_text;
         let res = match w.mode {
             "seq" => {
                 let spans: Vec<(usize, usize)> = w.ends.iter().map(|e| (0, *e)).collect();
@@ -1575,15 +1575,15 @@ pub fn run(driver: &Driver, seed: u64, thorough: bool, replay: Option<&Value>) -
     rep.streams.push(utf8_stream(driver, seed, 20000 * k));
     rep.streams.push(floattext_stream(driver, if thorough { 6 } else { 4 }));
     rep.notes.push("c03.floattext validates an ASSUMPTION of the model, not a theorem: `Env.parseReal` (= str::parse::<f32>, std code outside the model) accepts exactly the texts `validFloatText` accepts among all texts over `+-.0123456789` up to the stated length".into());
-    rep.streams.extend(str_streams(driver, seed, 0, 15000 * k, 6000 * k, &mut den));
-    let (sts, or) = parse_streams(driver, seed, 0, 25000 * k, &mut render_st);
+    rep.streams.extend(str_streams(driver, seed, 0, 30000 * k, 10000 * k, &mut den));
+    let (sts, or) = parse_streams(driver, seed, 0, 50000 * k, &mut render_st);
     rep.streams.extend(sts);
     merge_oracle(&mut den, or);
-    let (st, or) = seq_streams(driver, seed, 0, 8000 * k, &mut render_st);
+    let (st, or) = seq_streams(driver, seed, 0, 15000 * k, &mut render_st);
     rep.streams.push(st);
     merge_oracle(&mut sq, or);
     rep.streams.push(render_st);
-    rep.streams.push(mutated_stream(driver, seed, 10000 * k));
+    rep.streams.push(mutated_stream(driver, seed, 20000 * k));
     rep.notes.push("the cursor of `parse_stream` (mode stm) cannot be observed through the public API: value only".into());
     rep.oracles.push(den);
     rep.oracles.push(sq);
